@@ -53,7 +53,7 @@ def gen_type(r, depth=0, rich=True):
 INTS = [0, 1, -1, 5, -17, 100, 7, 42, -2]
 FLOATS = [0.0, 0.5, -1.5, 1e-07, 3.0, 100.25, 1e20, 2.5e-05, -0.001]
 STRS = ["mnist", "~/data", "x", "a b", "word", "two words", "under_score", "UPPER", "8080", "1.0", "-3", "True"]
-CODES = ["```np.zeros(3)```", "```(1, 2)```", "```[1, 2]```", "```{'a': 1}```", "```foo(1)```", "```x```"]
+CODES = ["```np.zeros(3)```", "```(1, 2)```", "```[1, 2]```", "```{'a': 1}```", "```foo(1)```", "```x```", "```list(range(3)).copy()```", "```x[0].y```"]
 
 
 def base_of(typ):
@@ -142,7 +142,7 @@ def default_sentence_forms(v, typ=None):
     return [str(v)]
 
 
-def post_parse_shape(r, irj):
+def post_parse_shape(r, irj, unquoted=False):
     """give the description the shape parsers return with default text kept: the prose of every defaulted
     entry ends with its own default sentence (and the default is still a separate key)"""
     for _, p in irj["params"]:
@@ -152,7 +152,7 @@ def post_parse_shape(r, irj):
                 continue
             doc = p["doc"]
             doc = doc if doc[-1] in ".," else doc + "."
-            p["doc"] = doc + " Defaults to " + r.choice(default_sentence_forms(v, p.get("typ")))
+            p["doc"] = doc + " Defaults to " + r.choice(default_sentence_forms(v, None if unquoted else p.get("typ")))
     return irj
 
 
@@ -165,7 +165,8 @@ def has_own_default_sentence(p):
         if v.get("t") == "none":
             return False
         v = {"int": lambda x: int(x), "float": lambda x: float(x)}.get(v["t"], lambda x: x)(v["v"])
-    return any(p["doc"].endswith(" Defaults to " + f) for f in default_sentence_forms(v, p.get("typ")))
+    forms = set(default_sentence_forms(v, p.get("typ"))) | set(default_sentence_forms(v, None))
+    return any(p["doc"].endswith(" Defaults to " + f) for f in forms)
 
 
 def to_py_ir(j, name=None, type_="static"):
